@@ -23,6 +23,8 @@ def mk_handler(tab, hid):
         for side, obj in (("L", left), ("R", right), ("S", session)):
             for kv in tab[side]["f"]:
                 k, v = kv["k"], kv["v"]
+                if v.startswith("@"):          # derived from the device's own name: {n} of the template it matched
+                    v = str(int(v[1:]) + int(obj.match.n))
                 val = int(v) if k in ("mtu", "lag", "svi", "subif") or (k == "asnum" and v.isdigit()) else (v == "1" if k == "bfd" else v)
                 setattr(obj, k, val)
             if tab[side]["fam"]:
@@ -38,10 +40,11 @@ def rnd_table(rnd, iface_mode, first=False):
     R = {"f": [kv("addr", R_ADDR)], "fam": []}
     S = {"f": [], "fam": []}
     # both AS numbers are required by the API just like both addresses (to_bgp_peer reads connected.asnum): the first handler sets them
+    # "@65000" = 65000 + the number in the device's own name (handlers are functions of the matched names): a1 -> 65001, b2 -> 65002
     if first or rnd.random() < 0.4:
-        L["f"].append(kv("asnum", rnd.choice([65001, 65001, 65001, 65011])))
+        L["f"].append(kv("asnum", rnd.choice([65001, "@65000", "@65000", 65011])))
     if first or rnd.random() < 0.4:
-        R["f"].append(kv("asnum", rnd.choice([65002, 65002, 65002, 65012])))
+        R["f"].append(kv("asnum", rnd.choice([65002, "@65000", "@65000", 65012])))
     if not first and rnd.random() < 0.1:
         S["f"].append(kv("asnum", 65001))
     if rnd.random() < 0.4:
@@ -65,13 +68,23 @@ def rnd_table(rnd, iface_mode, first=False):
     return {"L": L, "R": R, "S": S}
 
 
+def resolve(tab):
+    """the table as the judge sees it: name-derived values computed for the devices of the topology (left a1, right b2)"""
+    out = copy.deepcopy(tab)
+    for side, n in (("L", 1), ("R", 2)):
+        for kv in out[side]["f"]:
+            if kv["v"].startswith("@"):
+                kv["v"] = str(int(kv["v"][1:]) + n)
+    return out
+
+
 def topo(nlinks, rev_b=False):
     from tests.annet.test_mesh.fakes import FakeStorage, FakeDevice, FakeInterface
-    a = FakeDevice("a1.ex", [FakeInterface("if%d" % i, "b1.ex", "eth%d" % i) for i in range(nlinks)] + [FakeInterface("lo0", None, None)])
+    a = FakeDevice("a1.ex", [FakeInterface("if%d" % i, "b2.ex", "eth%d" % i) for i in range(nlinks)] + [FakeInterface("lo0", None, None)])
     bports = [FakeInterface("eth%d" % i, "a1.ex", "if%d" % i) for i in range(nlinks)]
     if rev_b:
         bports.reverse()       # the far end lists its ports in another order
-    b = FakeDevice("b1.ex", bports + [FakeInterface("lo0", None, None)])
+    b = FakeDevice("b2.ex", bports + [FakeInterface("lo0", None, None)])
     st = FakeStorage()
     st.add_device(a)
     st.add_device(b)
@@ -140,7 +153,7 @@ def run(ctx):
         want_if = ("", "")
         if kind == "direct":
             want_if = {"port": ("if0", "eth0"), "lag": ("Trunk1", "Trunk2"), "svi": ("Vlan100", "Vlan200"), "subif": ("if0.7", "eth0.7")}[mode]
-        rec = {"id": "pair-%d" % len(recs), "kind": "pair", "hs": hs, "ipL": L_ADDR.split("/")[0], "ipR": R_ADDR.split("/")[0], "runs": runs,
+        rec = {"id": "pair-%d" % len(recs), "kind": "pair", "hs": [resolve(h) for h in hs], "hs_src": hs, "ipL": L_ADDR.split("/")[0], "ipR": R_ADDR.split("/")[0], "runs": runs,
                "ifaceA": want_if[0], "ifaceB": want_if[1], "ambiguous": kind == "direct" and nlinks > 1 and mode in ("port", "subif"), "meta": {"links": nlinks, "mode": mode, "rule": kind}}
         recs.append(rec)
         ctx.count(len(runs))
@@ -178,7 +191,7 @@ def run(ctx):
         recs.append(rec)
         ctx.count()
     ctx.sample({"handlers": recs[0]["hs"], "meta": recs[0]["meta"], "first_run": recs[0]["runs"][0]})
-    slim = [{k: v for k, v in r.items() if k not in ("meta", "exc")} for r in recs]
+    slim = [{k: v for k, v in r.items() if k not in ("meta", "exc", "hs_src")} for r in recs]
     verd = ctx.judge("trace/Trace_Mesh.tla", "trace/Trace.cfg", slim, shards=8)
     for rec in recs:
         v = verd[rec["id"]][0]
